@@ -741,7 +741,10 @@ def menu(st, paths):
                 ops.append(("dir", p))
         pre = p + b"/"
         beyond_symlink = any(isinstance(st.wd.get(q), tuple) and st.wd[q][0] == "l" for q in wm.prefixes(p))  # git add: "beyond a symbolic link"
-        if (e is not None or p in st.index or any(q.startswith(pre) for q in st.index)) and not beyond_symlink:
+        # porcelain.add(<symlink to a directory>) deliberately adds the files *through* the symlink (pinned by
+        # tests.porcelain.AddTests.test_add_symlink_to_directory_inside_repo); git adds the symlink.  Not issued.
+        link_to_dir = isl and link_class(st.wd, st.index, p, e[1]) == "to-dir"
+        if (e is not None or p in st.index or any(q.startswith(pre) for q in st.index)) and not beyond_symlink and not link_to_dir:
             ops.append(("stage", p))
         if p in st.index or p in st.head or any(q.startswith(pre) for q in st.index) or any(q.startswith(pre) for q in st.head):
             ops.append(("unstage", p))
